@@ -61,7 +61,7 @@ func Load(dir string) (*Repo, error) {
 		Fset: fset,
 		Env:  Env(),
 	}
-	pkgs, err := packages.Load(cfg, "./...")
+	pkgs, err := packages.Load(cfg, "./...", "runtime/debug", "time", "context", "sync/atomic")
 	if err != nil {
 		return nil, err
 	}
@@ -76,7 +76,9 @@ func Load(dir string) (*Repo, error) {
 		}
 	})
 	for _, p := range pkgs {
-		r.Pkgs[p.PkgPath] = p
+		if p.Module != nil && p.Module.Path == Module {
+			r.Pkgs[p.PkgPath] = p
+		}
 	}
 	if len(errs) > 0 {
 		sort.Strings(errs)
